@@ -7,261 +7,9 @@ verus! {
 global size_of usize == 8;
 //@ include units/gds_codec/spec.inc.rs
 //@ include units/gds_codec/points.inc.rs
-// =====================================================================================================
-// WRITER (gds21/src/write.rs), extracted
-// =====================================================================================================
-//@ item gds21/src/write.rs :: struct GdsWriter
-//@   sub R5 /GdsWriter<'wr>/ => GdsWriter
-//@   sub R5 /dest: Box<dyn Write \+ 'wr>/ => pub dest: Dest
-//@ end
-impl GdsWriter {
-//@ fn gds21/src/write.rs :: impl<'wr> GdsWriter<'wr> :: fn write_record_header
-//@   ret r
-//@   sub R5 /\|s: &str\| -> usize \{ s\.len\(\) \+ s\.len\(\) % 2 \}/ => |s: &String| -> (n: usize) requires string_bytes(s).len() < 0x7fff_ffff_ffff_ffff ensures n == padded(string_bytes(s)).len() { s.len() + s.len() % 2 }
-//@   spec
-//|     requires payload(*record).len() < 0x7fff_ffff_ffff_ff00,
-//|     ensures
-//|         r is Ok ==> writable(*record) && final(self).dest@ == old(self).dest@ + header_bytes(*record),
-//|         !writable(*record) ==> r is Err && final(self).dest@ == old(self).dest@,
-//@   before /let \(rtype, dtype, len\) = match record/
-//|         proof { lemma_payload_len(*record); }
-//@   before /Send those header-bytes to the writer/
-//|         proof {
-//|             assert(len == payload(*record).len());
-//|             assert(rtype as u8 == rec_num(*record));
-//|             assert(dtype as u8 == rec_dtype(*record));
-//|         }
-//@ end
-
-//@ fn gds21/src/write.rs :: impl<'wr> GdsWriter<'wr> :: fn write_record_content
-//@   sub R5? /(\w+)\.to_be_bytes\(\)/ => vp_i32_to_be(\1)
-//@   ret r
-//@   spec
-//|     ensures r is Ok ==> final(self).dest@ == old(self).dest@ + payload(*record),
-//@   loop 1 iter it
-//|                 invariant self.dest@ == old(self).dest@ + i16s_bytes(d@.take(it.index@ as int)), it.index@ <= 12,
-//@   loopend 1
-//|                     proof { lemma_i16s_push(d@.take(it.index@ as int), *val); assert(d@.take(it.index@ + 1) == d@.take(it.index@ as int).push(*val)); }
-//@   loop 2 iter it
-//|                 invariant self.dest@ == old(self).dest@ + i16s_bytes(d@.take(it.index@ as int)), it.index@ <= 6,
-//@   loopend 2
-//|                     proof { lemma_i16s_push(d@.take(it.index@ as int), *val); assert(d@.take(it.index@ + 1) == d@.take(it.index@ as int).push(*val)); }
-//@   loop 3 iter it
-//|                 invariant self.dest@ == old(self).dest@ + i32s_bytes(d@.take(it.index@ as int)), it.index@ <= d@.len(),
-//@   loopend 3
-//|                     proof { lemma_i32s_push(d@.take(it.index@ as int), *val); assert(d@.take(it.index@ + 1) == d@.take(it.index@ as int).push(*val)); }
-//@   loop 4 iter it
-//|                 invariant self.dest@ == old(self).dest@ + string_bytes(s).take(it.index@ as int), it.index@ <= string_bytes(s).len(),
-//@   loopend 4
-//|                     proof { assert(string_bytes(s).take(it.index@ + 1) == string_bytes(s).take(it.index@ as int).push(*b)); }
-//@   before /^        Ok\(\(\)\)$/
-//|         proof {
-//|             match record {
-//|                 GdsRecord::BgnLib { dates: d } | GdsRecord::BgnStruct { dates: d } => { assert(d@.take(12) == d@); }
-//|                 GdsRecord::TapeCode(d) => { assert(d@.take(6) == d@); }
-//|                 GdsRecord::Xy(d) => { assert(d@.take(d@.len() as int) == d@); }
-//|                 GdsRecord::LibName(s) | GdsRecord::StructName(s) | GdsRecord::StructRefName(s) | GdsRecord::String(s) | GdsRecord::RefLibs(s) | GdsRecord::Fonts(s)
-//|                 | GdsRecord::AttrTable(s) | GdsRecord::PropValue(s) | GdsRecord::Mask(s) | GdsRecord::SrfName(s) => {
-//|                     assert(string_bytes(s).take(string_bytes(s).len() as int) == string_bytes(s));
-//|                 }
-//|                 _ => {}
-//|             }
-//|             assert(self.dest@ =~= old(self).dest@ + payload(*record));
-//|         }
-//@ end
-//@ fn gds21/src/write.rs :: impl<'wr> GdsWriter<'wr> :: fn write_record
-//@   ret r
-//@   spec
-//|     requires payload(*record).len() < 0x7fff_ffff_ffff_ff00,
-//|     ensures
-//|         r is Ok ==> writable(*record) && final(self).dest@ == old(self).dest@ + rec_bytes(*record),
-//|         !writable(*record) ==> r is Err && final(self).dest@ == old(self).dest@,
-//@ end
-
-//@ fn gds21/src/write.rs :: impl<'wr> GdsWriter<'wr> :: fn write_records
-//@   ret r
-//@   spec
-//|     requires forall|i: int| 0 <= i < records@.len() ==> payload(#[trigger] records@[i]).len() < 0x7fff_ffff_ffff_ff00,
-//|     ensures r is Ok ==> (forall|i: int| 0 <= i < records@.len() ==> writable(#[trigger] records@[i]))
-//|             && final(self).dest@ == old(self).dest@ + recs_bytes(records@),
-//@   loop 1 iter it
-//|             invariant self.dest@ == old(self).dest@ + recs_bytes(records@.take(it.index@ as int)), it.index@ <= records@.len(),
-//|                 forall|i: int| 0 <= i < it.index@ ==> writable(#[trigger] records@[i]),
-//|                 forall|i: int| 0 <= i < records@.len() ==> payload(#[trigger] records@[i]).len() < 0x7fff_ffff_ffff_ff00,
-//@   loopend 1
-//|             proof {
-//|                 assert(records@.take(it.index@ + 1) == records@.take(it.index@ as int).push(*r));
-//|                 lemma_recs_push(records@.take(it.index@ as int), *r);
-//|                 assert(self.dest@ =~= old(self).dest@ + recs_bytes(records@.take(it.index@ + 1)));
-//|             }
-//@   before /^        Ok\(\(\)\)$/
-//|         proof { assert(records@.take(records@.len() as int) == records@); }
-//@ end
-}
-
+//@ include units/gds_codec/writer.inc.rs
 //@ include units/gds_codec/reader.inc.rs
-// =====================================================================================================
-// COMPOSITION LEMMAS (spec level): what the writer emits is what the reader accepts, and decodes to the same content
-// =====================================================================================================
-proof fn lemma_be16_rt(v: u16) ensures de16(be16(v)[0], be16(v)[1]) == v, be16(v).len() == 2 {
-    assert(((((v >> 8) as u8) as u16) << 8) | (((v & 0xff) as u8) as u16) == v) by (bit_vector);
-}
-proof fn lemma_be16_rt_i16(d: i16) ensures de16(be16(d as u16)[0], be16(d as u16)[1]) as i16 == d {
-    lemma_be16_rt(d as u16);
-    assert(((d as u16) as i16) == d) by (bit_vector);
-}
-proof fn lemma_be32_rt(v: u32) ensures de32(be32(v)[0], be32(v)[1], be32(v)[2], be32(v)[3]) == v, be32(v).len() == 4 {
-    assert(((((v >> 24) as u8) as u32) << 24) | (((((v >> 16) & 0xff) as u8) as u32) << 16) | (((((v >> 8) & 0xff) as u8) as u32) << 8) | (((v & 0xff) as u8) as u32) == v) by (bit_vector);
-}
-proof fn lemma_be32_rt_i32(d: i32) ensures de32(be32(d as u32)[0], be32(d as u32)[1], be32(d as u32)[2], be32(d as u32)[3]) as i32 == d {
-    lemma_be32_rt(d as u32);
-    assert(((d as u32) as i32) == d) by (bit_vector);
-}
-proof fn lemma_be64_rt(v: u64) ensures de64(be64(v), 0) == v, be64(v).len() == 8 {
-    let hi = (v >> 32) as u32; let lo = (v & 0xffff_ffff) as u32;
-    lemma_be32_rt(hi); lemma_be32_rt(lo);
-    let b = be64(v);
-    assert(b[0] == be32(hi)[0] && b[1] == be32(hi)[1] && b[2] == be32(hi)[2] && b[3] == be32(hi)[3]);
-    assert(b[4] == be32(lo)[0] && b[5] == be32(lo)[1] && b[6] == be32(lo)[2] && b[7] == be32(lo)[3]);
-    assert(((((v >> 32) as u32) as u64) << 32) | (((v & 0xffff_ffff) as u32) as u64) == v) by (bit_vector);
-}
-proof fn lemma_i16s_at(s: Seq<i16>, i: int) requires 0 <= i < s.len() ensures i16_at(i16s_bytes(s), i) == s[i], i16s_bytes(s).len() == 2 * s.len()
-    decreases s.len()
-{
-    lemma_i16s_len(s); lemma_i16s_len(s.drop_last());
-    let p = i16s_bytes(s.drop_last());
-    if i < s.len() - 1 { lemma_i16s_at(s.drop_last(), i); assert(i16s_bytes(s)[2 * i] == p[2 * i]); assert(i16s_bytes(s)[2 * i + 1] == p[2 * i + 1]); }
-    else { lemma_be16_rt_i16(s.last()); assert(i16s_bytes(s)[2 * i] == be16(s.last() as u16)[0]); assert(i16s_bytes(s)[2 * i + 1] == be16(s.last() as u16)[1]); }
-}
-proof fn lemma_i32s_at(s: Seq<i32>, i: int) requires 0 <= i < s.len() ensures i32_at(i32s_bytes(s), i) == s[i], i32s_bytes(s).len() == 4 * s.len()
-    decreases s.len()
-{
-    lemma_i32s_len(s); lemma_i32s_len(s.drop_last());
-    let p = i32s_bytes(s.drop_last()); let q = i32s_bytes(s);
-    if i < s.len() - 1 { lemma_i32s_at(s.drop_last(), i); assert(q[4 * i] == p[4 * i] && q[4 * i + 1] == p[4 * i + 1] && q[4 * i + 2] == p[4 * i + 2] && q[4 * i + 3] == p[4 * i + 3]); }
-    else { let e = be32(s.last() as u32); lemma_be32_rt_i32(s.last()); assert(q[4 * i] == e[0] && q[4 * i + 1] == e[1] && q[4 * i + 2] == e[2] && q[4 * i + 3] == e[3]); }
-}
-/// contract of the real codec imported from the Kani unit gds_real (C15): in range (or zero) => decode(encode(x)) == x
-pub uninterp spec fn gds_in_range(x: f64) -> bool;
-#[verifier::external_body]
-proof fn axiom_gds_real_roundtrip(x: f64) requires gds_in_range(x) ensures gds_dec(gds_enc(x)) == x {}
-pub open spec fn reals_ok(r: GdsRecord) -> bool {
-    match r { GdsRecord::Mag(x) | GdsRecord::Angle(x) => gds_in_range(x), GdsRecord::Units(x, y) => gds_in_range(x) && gds_in_range(y), _ => true }
-}
-proof fn lemma_strip_padded(sb: Seq<u8>) requires sb.len() == 0 || sb.last() != 0u8 ensures strip_nul(padded(sb)) == sb {
-    if sb.len() % 2 != 0 { assert(sb.push(0u8).drop_last() == sb); }
-}
-/// (a) C01/C03: a record the writer accepts is a row of the format's table and its payload decodes to the same record
-proof fn lemma_payload_roundtrip(rec: GdsRecord)
-    requires writable(rec), reals_ok(rec),
-    ensures payload_matches(rec, payload(rec)), table_row(rec_num(rec), rec_dtype(rec), payload(rec).len() as int),
-        rec_dtype(rec) == 6 ==> valid_utf8(strip_nul(payload(rec))),
-{
-    lemma_payload_len(rec);
-    match rec {
-        GdsRecord::Header { version: d } | GdsRecord::Layer(d) | GdsRecord::DataType(d) | GdsRecord::TextType(d) | GdsRecord::PathType(d) | GdsRecord::Generations(d)
-        | GdsRecord::Nodetype(d) | GdsRecord::PropAttr(d) | GdsRecord::BoxType(d) | GdsRecord::TapeNum(d) | GdsRecord::Format(d) | GdsRecord::LibDirSize(d)
-        | GdsRecord::LibSecur(d) => { lemma_be16_rt_i16(d); }
-        GdsRecord::BgnLib { dates: d } | GdsRecord::BgnStruct { dates: d } => {
-            assert forall|i: int| 0 <= i < 12 implies #[trigger] d@[i] == i16_at(i16s_bytes(d@), i) by { lemma_i16s_at(d@, i); }
-        }
-        GdsRecord::TapeCode(d) => {
-            assert forall|i: int| 0 <= i < 6 implies #[trigger] d@[i] == i16_at(i16s_bytes(d@), i) by { lemma_i16s_at(d@, i); }
-        }
-        GdsRecord::ColRow { cols, rows } => {
-            lemma_be16_rt_i16(cols); lemma_be16_rt_i16(rows);
-            let b = be16(cols as u16) + be16(rows as u16);
-            assert(b[0] == be16(cols as u16)[0] && b[1] == be16(cols as u16)[1] && b[2] == be16(rows as u16)[0] && b[3] == be16(rows as u16)[1]);
-        }
-        GdsRecord::Width(d) | GdsRecord::Plex(d) | GdsRecord::BeginExtn(d) | GdsRecord::EndExtn(d) => { lemma_be32_rt_i32(d); }
-        GdsRecord::Xy(v) => {
-            lemma_i32s_len(v@);
-            assert forall|i: int| 0 <= i < v@.len() implies #[trigger] v@[i] == i32_at(i32s_bytes(v@), i) by { lemma_i32s_at(v@, i); }
-        }
-        GdsRecord::Mag(x) | GdsRecord::Angle(x) => { lemma_be64_rt(gds_enc(x)); axiom_gds_real_roundtrip(x); }
-        GdsRecord::Units(x, y) => {
-            lemma_be64_rt(gds_enc(x)); lemma_be64_rt(gds_enc(y)); axiom_gds_real_roundtrip(x); axiom_gds_real_roundtrip(y);
-            let b = be64(gds_enc(x)) + be64(gds_enc(y));
-            assert forall|k: int| 0 <= k < 8 implies b[k] == be64(gds_enc(x))[k] && b[8 + k] == be64(gds_enc(y))[k] by {}
-            assert(de64(b, 0) == de64(be64(gds_enc(x)), 0));
-            assert(de64(b, 8) == de64(be64(gds_enc(y)), 0));
-        }
-        GdsRecord::LibName(s) | GdsRecord::StructName(s) | GdsRecord::StructRefName(s) | GdsRecord::String(s) | GdsRecord::RefLibs(s) | GdsRecord::Fonts(s)
-        | GdsRecord::AttrTable(s) | GdsRecord::PropValue(s) | GdsRecord::Mask(s) | GdsRecord::SrfName(s) => {
-            lemma_strip_padded(string_bytes(&s));
-            encode_utf8_valid_utf8(s@);
-        }
-        _ => {}
-    }
-}
-/// (a') C02/C03: the four header bytes the writer emits are a header the reader accepts, with the right length, type and data type
-proof fn lemma_header_roundtrip(rec: GdsRecord)
-    requires fits(rec),
-    ensures ({
-        let b = rec_bytes(rec);
-        &&& header_ok(b) &&& de16(b[0], b[1]) - 4 == payload(rec).len() &&& b[2] == rec_num(rec) &&& b[3] == rec_dtype(rec)
-        &&& b.subrange(4, 4 + payload(rec).len() as int) == payload(rec)
-        // C02: length field even, >= 4, equal to the bytes present
-        &&& de16(b[0], b[1]) % 2 == 0 &&& de16(b[0], b[1]) >= 4 &&& de16(b[0], b[1]) == b.len()
-    }),
-{
-    lemma_payload_len(rec);
-    let n = (payload(rec).len() + 4) as u16;
-    lemma_be16_rt(n);
-    let b = rec_bytes(rec);
-    assert(b[0] == be16(n)[0] && b[1] == be16(n)[1]);
-    assert(b.subrange(4, 4 + payload(rec).len() as int) =~= payload(rec));
-}
-
-
-/// the integer fields as the decoder determines them from the payload
-pub open spec fn ints_of(r: GdsRecord, b: Seq<u8>) -> Seq<int> {
-    match rec_dtype(r) {
-        1 => seq![b[0] as int, b[1] as int],
-        2 => Seq::new((b.len() / 2) as nat, |i: int| i16_at(b, i) as int),
-        3 => Seq::new((b.len() / 4) as nat, |i: int| i32_at(b, i) as int),
-        _ => Seq::<int>::empty(),
-    }
-}
-pub open spec fn reals_of(r: GdsRecord, b: Seq<u8>) -> Seq<f64> {
-    if rec_dtype(r) == 5 { if b.len() == 8 { seq![gds_dec(de64(b, 0))] } else { seq![gds_dec(de64(b, 0)), gds_dec(de64(b, 8))] } } else { Seq::<f64>::empty() }
-}
-/// (b) a payload determines the content: whatever record matches these bytes under this record number has exactly these fields
-proof fn lemma_decode_determined(r: GdsRecord, b: Seq<u8>)
-    requires payload_matches(r, b),
-    ensures content(r) == (rec_num(r), ints_of(r, b), if rec_dtype(r) == 6 { strip_nul(b) } else { Seq::<u8>::empty() }, reals_of(r, b)),
-{
-    match r {
-        GdsRecord::Presentation(x, y) | GdsRecord::Strans(x, y) | GdsRecord::ElemFlags(x, y) => { assert(content(r).1 =~= ints_of(r, b)); }
-        GdsRecord::Header { version: d } | GdsRecord::Layer(d) | GdsRecord::DataType(d) | GdsRecord::TextType(d) | GdsRecord::PathType(d) | GdsRecord::Generations(d)
-        | GdsRecord::Nodetype(d) | GdsRecord::PropAttr(d) | GdsRecord::BoxType(d) | GdsRecord::TapeNum(d) | GdsRecord::Format(d) | GdsRecord::LibDirSize(d)
-        | GdsRecord::LibSecur(d) => { assert(content(r).1 =~= ints_of(r, b)); }
-        GdsRecord::BgnLib { dates: d } => {
-            assert forall|i: int| 0 <= i < 12 implies content(r).1[i] == ints_of(r, b)[i] by { assert(d@[i] == i16_at(b, i)); }
-            assert(content(r).1 =~= ints_of(r, b));
-        }
-        GdsRecord::BgnStruct { dates: d } => {
-            assert forall|i: int| 0 <= i < 12 implies content(r).1[i] == ints_of(r, b)[i] by { assert(d@[i] == i16_at(b, i)); }
-            assert(content(r).1 =~= ints_of(r, b));
-        }
-        GdsRecord::TapeCode(d) => {
-            assert forall|i: int| 0 <= i < 6 implies content(r).1[i] == ints_of(r, b)[i] by { assert(d@[i] == i16_at(b, i)); }
-            assert(content(r).1 =~= ints_of(r, b));
-        }
-        GdsRecord::ColRow { cols, rows } => { assert(content(r).1 =~= ints_of(r, b)); }
-        GdsRecord::Width(d) | GdsRecord::Plex(d) | GdsRecord::BeginExtn(d) | GdsRecord::EndExtn(d) => { assert(content(r).1 =~= ints_of(r, b)); }
-        GdsRecord::Xy(v) => { assert(content(r).1 =~= ints_of(r, b)); }
-        GdsRecord::Mag(x) | GdsRecord::Angle(x) => { assert(content(r).3 =~= reals_of(r, b)); }
-        GdsRecord::Units(x, y) => { assert(content(r).3 =~= reals_of(r, b)); }
-        _ => {}
-    }
-}
-proof fn lemma_decode_unique(r1: GdsRecord, r2: GdsRecord, b: Seq<u8>)
-    requires payload_matches(r1, b), payload_matches(r2, b), rec_num(r1) == rec_num(r2), rec_dtype(r1) == rec_dtype(r2),
-    ensures content(r1) == content(r2),
-{
-    lemma_decode_determined(r1, b); lemma_decode_determined(r2, b);
-}
+//@ include units/gds_codec/lemmas.inc.rs
 // ---- vacuity canaries ----
 proof fn canary_writable(r: GdsRecord) requires writable(r), reals_ok(r), r is LibName, string_bytes(&r->LibName_0).len() == 3 ensures false {}
 proof fn canary_header_ok(b: Seq<u8>) requires header_ok(b), table_row(b[2], b[3], de16(b[0], b[1]) - 4), b[3] == 6 ensures false {}
